@@ -45,6 +45,9 @@ fn first_diff(a: &(Vec<u32>, Vec<u32>), b: &(Vec<u32>, Vec<u32>), w: u32) -> Opt
 pub fn run(t: &[&str]) -> String {
     // the token "painter=1" (not a scene key) asks for the painter comparison
     let painter = t.iter().any(|x| *x == "painter=1");
+    // "painter=2": a painter-configured scene (depth test off, back-to-front sort) whose depth buffer is
+    // degenerate (orthographic-like, w = 1): only the permutation test applies
+    let painter2 = t.iter().any(|x| *x == "painter=2");
     let toks: Vec<&str> = t.iter().copied().filter(|x| !x.starts_with("painter=")).collect();
     let s = parse_scene(&toks);
     let base = run_scene(&s, s.door);
@@ -53,7 +56,7 @@ pub fn run(t: &[&str]) -> String {
     let n = s.tris.len();
     let (mut nh, mut nd) = (0usize, 0usize);
     let mut first: Option<((u32, u32), String)> = None;
-    if n <= 4 {
+    if n <= 4 && !painter2 {
         for p in perms(n) {
             for split in 0..(1u32 << (n.max(1) - 1)) {
                 for sort in ['n', 'f', 'b'] {
@@ -99,8 +102,37 @@ pub fn run(t: &[&str]) -> String {
             Some(i) => out += &format!(" | 1 0 {} {}", i as u32 % s.w, i as u32 / s.w),
             None => out += " | 1 1 -1 -1",
         }
+    } else if painter2 {
+        out += " | 2 1 -1 -1";
     } else {
         out += " | 0 1 -1 -1";
+    }
+    if (painter || painter2) && n <= 4 {
+        // back-to-front painting must not depend on the submission order (sort keys are distinct)
+        let mut pa = s.clone();
+        pa.test = 'n';
+        pa.hist = vec![('b', (0..n).collect())];
+        let refimg = bits(&run_scene(&pa, s.door));
+        let (mut np, mut nd2) = (0usize, 0usize);
+        let mut firstp: Option<(u32, u32)> = None;
+        for p in perms(n) {
+            let mut s2 = pa.clone();
+            s2.hist = vec![('b', p.clone())];
+            let o = run_scene(&s2, s.door);
+            np += 1;
+            if let Some(px) = first_diff(&refimg, &bits(&o), s.w) {
+                nd2 += 1;
+                if firstp.is_none() {
+                    firstp = Some(px);
+                }
+            }
+        }
+        match firstp {
+            Some((x, y)) => out += &format!(" {np} {nd2} {x} {y}"),
+            None => out += &format!(" {np} {nd2} -1 -1"),
+        }
+    } else {
+        out += " 0 0 -1 -1";
     }
     out
 }
@@ -109,8 +141,14 @@ pub fn gen(rng: &mut Rng, tier: Tier, out: &mut Vec<String>) {
     let n = if tier == Tier::Quick { 600 } else { 12000 };
     for i in 0..n {
         let painter = i % 3 == 2;
+        // every fourth painter scene is orthographic-like: w = 1, triangles in disjoint clip-z slabs
+        let ortho = painter && (i / 3) % 4 == 3;
         let ntris = if tier == Tier::Quick { 1 + (i % 3) } else { 1 + (i % 4) };
-        let flags = format!("cull=n sort=n test=l cw=1 dw=1 sh=0 proj=none zinit={}", h32(0.0));
+        let flags = if ortho {
+            format!("cull=n sort=b test=n cw=1 dw=1 sh=0 proj=none zinit={}", h32(0.0))
+        } else {
+            format!("cull=n sort=n test=l cw=1 dw=1 sh=0 proj=none zinit={}", h32(0.0))
+        };
         let (mut line, _, _) = header(rng, 'r', "fb", &flags, 1);
         let mut verts: Vec<Vec<f32>> = vec![];
         let mut tris = vec![];
@@ -121,7 +159,10 @@ pub fn gen(rng: &mut Rng, tier: Tier, out: &mut Vec<String>) {
         let far = if !painter && rng.chance(1, 4) { 10f32.powf(rng.f32_in(4.0, 8.0)) } else { 1.0 };
         for j in 0..ntris {
             for _ in 0..3 {
-                let mut p = if painter {
+                let mut p = if ortho {
+                    let z = -0.8 + 0.5 * j as f32 + rng.f32_in(0.0, 0.3);
+                    vec![rng.f32_in(-1.4, 1.4), rng.f32_in(-1.4, 1.4), z, 1.0]
+                } else if painter {
                     // triangle j lives in its own depth slab: w in [1+j, 1.8+j]; clip z = a*w - b is
                     // increasing in w (as under a perspective matrix) and, for the nearest slabs,
                     // NEGATIVE (geometry between the near plane and about twice the near distance)
@@ -145,7 +186,9 @@ pub fn gen(rng: &mut Rng, tier: Tier, out: &mut Vec<String>) {
         for t in &tris {
             line += &format!(" {} {} {}", t[0], t[1], t[2]);
         }
-        if painter {
+        if ortho {
+            line += " painter=2";
+        } else if painter {
             line += " painter=1";
         }
         out.push(line);
